@@ -1,11 +1,11 @@
 SPECIFICATION Spec
-CONSTANTS MaxIdx = 5
+CONSTANTS MaxIdx = 2
           FileSize = 3
-          MaxBatch = 3
+          MaxBatch = 1
           MaxReaders = 2
           MaxRF = 1
           Depth = 5
-          QMode = "all"
+          QMode = "edge"
 CONSTRAINT Bounded
 INVARIANT W_NoOldAndNewReader
 CHECK_DEADLOCK FALSE
